@@ -556,7 +556,7 @@ func runH(t *testing.T, ch *vs.Choices, prop, tier string, render bool) *vs.RunO
 		hs = append(hs, s.String(p))
 	}
 	out.Shape = vs.HashString(yaml + strings.Join(hs, "\n"))
-	base := os.Getenv("VERIF_WORKROOT")
+	base := vs.Cfg("VERIF_WORKROOT")
 	if base == "" {
 		base = os.TempDir()
 	}
